@@ -44,6 +44,13 @@ impl VM {
         Ok(self.heap.alloc_string(s))
     }
 
+    /// Checks that a string of `len` bytes could be allocated under the heap limit.  For natives
+    /// that know the length of their result before building it (repeat, padding): the host
+    /// string is then only built when it is going to be accepted.
+    pub fn check_string_capacity(&self, len: usize) -> Result<(), RuntimeError> {
+        self.ensure_heap_capacity(Heap::estimate_string_size(len) as u64)
+    }
+
     pub fn intern_string(&mut self, s: &str) -> Result<GcRef, RuntimeError> {
         if let Some(existing) = self.heap.find_interned_string(s) {
             return Ok(existing);
